@@ -192,6 +192,16 @@ theorem inv_run {κ : Nat → String} {s : State} (h : InvK κ s) (hb : Boundary
     cases src with
     | inl o => exact Post.mono (inv_setItem h _ ix o) (fun _ _ hq => Good.of_kept hq)
     | inr j => exact Post.mono (inv_setItem h _ ix _) (fun _ _ hq => Good.of_kept hq)
+  | df o =>
+    show Post (getS >>= _) s _
+    rw [post_bind_getS]
+    exact Good.refl h
+  | sysDf i sc =>
+    show Post (getS >>= _) s _
+    rw [post_bind_getS, post_bind_liftE]
+    cases sysDfColumns s i (dfScaleKeys sc) with
+    | ok c => exact Good.refl h
+    | error e => exact Good.refl h
 
 theorem init_inv : Inv init := by
   refine ⟨⟨fun _ => "", ?_, ?_, ?_, ?_⟩, ?_⟩
@@ -1326,6 +1336,70 @@ example : (propGet 1 "w" none (step exShape (.getItem 0 (.mask [false, false, fa
 example : (propGet 0 "w" (some (.int 2)) exShape).1 = .ok ⟨.flt, [1], [.flt 2]⟩ := by decide +kernel
 -- the hypotheses of `getItem_keeps_shape` hold here
 example : (getItem 0 (.int 2) exShape).1 = .ok 1 := by decide +kernel
+
+/-! ## tables: `Atoms.df()` / `System.atoms_df(scale)` -/
+
+/-- **reads do not write (tables)** — `df()` and `atoms_df(scale)` leave the state literally unchanged, whatever the
+    `scale` argument and whether or not the call raises; `df()` replies the columns of `dfColumns`. -/
+theorem df_reads_only (off : Bool) (s : State) (o i : Nat) (sc : DfScale) :
+    (stepWith off s (.df o)).2 = s ∧ (stepWith off s (.sysDf i sc)).2 = s ∧
+    (o < s.objs.length → (stepWith off s (.df o)).1 = .ok (.table (dfColumns s o))) := by
+  refine ⟨?_, ?_, ?_⟩
+  · unfold stepWith; split
+    · rfl
+    · rfl
+  · rcases stepWith_state off s (.sysDf i sc) with h | ⟨-, h⟩
+    · exact h
+    · rw [h]
+      show ((do let c ← liftE (sysDfColumns s i (dfScaleKeys sc)); pure (Out.table c) : M Out) s).2 = s
+      cases sysDfColumns s i (dfScaleKeys sc) <;> rfl
+  · intro ho
+    unfold stepWith
+    rw [if_neg (by simp [Op.litsOk, Op.idsOk, ho])]
+    rfl
+
+theorem indexStrs_length (t : List Nat) : (indexStrs t).length = prod t := by
+  induction t with
+  | nil => rfl
+  | cons d ds ih =>
+    simp only [indexStrs, prod, List.length_flatMap, List.length_map, ih]
+    induction d with
+    | zero => simp
+    | succ n ihn => simp [List.range_succ, List.sum_append, ihn, Nat.succ_mul]
+
+/-- **one entry per atom, for every column of the table**: in a state satisfying the invariant every column of `df()`
+    has exactly `natoms` cells, and a property of trailing shape `t` contributes `prod t` columns. -/
+theorem dfColumns_rectangular (s : State) (h : Inv s) (o : Nat) (ho : o < s.objs.length) :
+    (∀ c ∈ dfColumns s o, c.cells.length = (s.obj o).natoms) ∧
+    (dfColumns s o).length = ((s.obj o).props.map (fun p => prod (arrTrail s p.arr))).sum := by
+  obtain ⟨⟨κ, hinv⟩, -⟩ := h
+  constructor
+  · intro c hc
+    simp only [dfColumns, List.mem_flatMap] at hc
+    obtain ⟨p, hp, hc⟩ := hc
+    simp only [valColumns, List.mem_map] at hc
+    obtain ⟨q, -, rfl⟩ := hc
+    simp only [List.length_map, rowsOf_length, arrVal, List.headD_cons]
+    exact (hinv.obj_props o p hp).len
+  · simp only [dfColumns, List.length_flatMap, valColumns, List.length_map, indexStrs_length, arrVal, List.tail_cons]
+
+/-- **row i of every column describes atom i**: the cell of atom `j` in the column of component `ix` of property `p` is
+    component `ix` (C order) of row `j` of that property's array — the same `j` for every column. -/
+theorem dfColumns_cell (s : State) (h : Inv s) (o : Nat) (ho : o < s.objs.length) (p : PropRef)
+    (hp : p ∈ (s.obj o).props) (q : List Nat × String) (hq : q ∈ indexStrs (arrTrail s p.arr)) :
+    (⟨p.key ++ q.2, arrDt s p.arr,
+        (arrRows s p.arr).map (fun r => r.getD (flatIdx (arrTrail s p.arr) q.1) default)⟩ : Column) ∈ dfColumns s o := by
+  have hrect := inv_rectangular s h o p hp
+  simp only [dfColumns, List.mem_flatMap]
+  refine ⟨p, hp, ?_⟩
+  simp only [valColumns, List.mem_map]
+  refine ⟨q, by simpa [arrVal] using hq, ?_⟩
+  have hw : ∀ r ∈ arrRows s p.arr, r.length = prod (arrTrail s p.arr) := hrect.2.2.2.2.1
+  have hflat := rowsOf_flatten (arrRows s p.arr) _ hw
+  simp only [arrVal, List.headD_cons, List.tail_cons]
+  have hl : (arrRows s p.arr).length = p.arr.idx.length := by simp [arrRows]
+  rw [← hl, hflat]
+
 
 /-! ## the call layer: one Python call with its options (`Atoms.prop`, `System.atoms_prop`, `System(...)`,
     `System.atoms_extend`), dispatched by the decisions regenerated from the source (`Proofs/C06_Source.lean`) -/
